@@ -164,17 +164,30 @@ def gblock_all():
     return out
 
 
-def idct_name(kind, w, h):
-    return "c02_idct_%s_%dx%d" % (kind, w, h)
+def idct_name(kind, w, h, bi=None):
+    return "c02_idct_%s_%dx%d" % (kind, w, h) + ("_b%d" % bi if bi is not None else "")
 
 
-def idct_inst(kind, w, h):
-    bw, bh = (w + 7) // 8, (h + 7) // 8
+def idct_dims(w, h):
     # the decoder rounds the level array up to whole macroblocks: blocks beyond the frame exist
-    bw2, bh2 = ((w + 15) // 16) * 2, ((h + 15) // 16) * 2
-    fn = "dc_check" if kind == "dc" else "contract_check"
+    return ((w + 15) // 16) * 2, ((h + 15) // 16) * 2
+
+
+def idct_inst(kind, w, h, bi=None):
+    bw2, bh2 = idct_dims(w, h)
+    if kind == "dc":
+        return ('    #[cfg_attr(kani, kani::proof)]\n    #[cfg_attr(kani, kani::unwind(%d))]\n'
+                '    pub fn %s() { dc_check::<%d, %d, %d, %d, %d, %d, %d>() }\n' % (max(9, bw2 * bh2 + 1), idct_name(kind, w, h, bi), w, h, w * h, bw2, bh2, bw2 * bh2, bi))
     return ('    #[cfg_attr(kani, kani::proof)]\n    #[cfg_attr(kani, kani::unwind(%d))]\n'
-            '    pub fn %s() { %s::<%d, %d, %d, %d, %d, %d>() }\n' % (max(9, bw2 * bh2 + 1), idct_name(kind, w, h), fn, w, h, w * h, bw2, bh2, bw2 * bh2))
+            '    pub fn %s() { contract_check::<%d, %d, %d, %d, %d, %d>() }\n' % (max(9, bw2 * bh2 + 1), idct_name(kind, w, h), w, h, w * h, bw2, bh2, bw2 * bh2))
+
+
+def idct_dc_blocks(w, h):
+    """block indices worth a harness: first, the one holding the last sample (cropped), one wholly outside the frame"""
+    bw2, bh2 = idct_dims(w, h)
+    last_in = ((h - 1) // 8) * bw2 + (w - 1) // 8
+    out = {0, last_in, bw2 * bh2 - 1}
+    return sorted(out)
 
 
 def idct_sizes():
@@ -196,3 +209,67 @@ def c17(cls, shape, idx, sca, scb):
     return ('    /// A: %s | B: %s\n    #[cfg_attr(kani, kani::proof)]\n    #[cfg_attr(kani, kani::unwind(%d))]\n%s'
             '    #[cfg_attr(kani, kani::stub(f64::ceil, crate::decoder::state::verif_state::ceil64_class%d))]\n'
             '    pub fn %s() {\n%s    }\n' % (sca.describe(), scb.describe(), max(len(sca.mbs), len(scb.mbs)) + 4, CORE_STUBS, cls, c17_name(cls, shape, idx), body))
+
+
+# ---- parser layer ------------------------------------------------------------------------------------------------
+PICK = '    #[cfg_attr(kani, kani::stub(crate::parser::reader::H263Reader::read_vlc, crate::parser::reader::H263Reader::read_vlc_pick))]\n'
+
+
+def pmb_name(n, pt, umv):
+    return "c01_parse_mb_%dB_%s%s" % (n, ["I", "P", "D"][pt], "_umv" if umv else "")
+
+
+def pmb(n, pt, umv):
+    return ('    #[cfg_attr(kani, kani::proof)]\n    #[cfg_attr(kani, kani::unwind(4))]\n%s'
+            '    pub fn %s() { mb_contract::<%d, %d, %s>() }\n' % (MODEL_STUBS + PICK, pmb_name(n, pt, umv), n, pt, "true" if umv else "false"))
+
+
+def pdisp_name(n):
+    return "c04_disposable_mb_syntax_%dB" % n
+
+
+def pdisp(n):
+    return ('    #[cfg_attr(kani, kani::proof)]\n    #[cfg_attr(kani, kani::unwind(6))]\n%s'
+            '    pub fn %s() { disposable_like_p::<%d>() }\n' % (MODEL_STUBS + PICK, pdisp_name(n), n))
+
+
+def pumv_name(n):
+    return "c01_parse_umv_%dB" % n
+
+
+def pumv(n):
+    return ('    #[cfg_attr(kani, kani::proof)]\n    #[cfg_attr(kani, kani::unwind(4))]\n%s'
+            '    pub fn %s() { umv_contract::<%d>() }\n' % (MODEL_STUBS, pumv_name(n), n))
+
+
+def pblk_name(n, mode, intra):
+    return "c01_parse_block_%dB_%s_%s" % (n, ["std", "sor0", "sor1"][mode], "intra" if intra else "inter")
+
+
+def pblk(n, mode, intra, unwind):
+    return ('    #[cfg_attr(kani, kani::proof)]\n    #[cfg_attr(kani, kani::unwind(%d))]\n%s'
+            '    pub fn %s() { block_contract::<%d, %d, %s>() }\n' % (unwind, MODEL_STUBS + PICK, pblk_name(n, mode, intra), n, mode, "true" if intra else "false"))
+
+
+def walk_name(table):
+    return "c01_vlc_walk_" + table.lower()
+
+
+def walk(table, depth, module_table_path):
+    return ('    #[cfg_attr(kani, kani::proof)]\n    #[cfg_attr(kani, kani::unwind(%d))]\n%s'
+            '    pub fn %s() { %s(&%s[..], %d) }\n' % (depth + 2, MODEL_STUBS, walk_name(table), "walk" if "TCOEF" not in table else "crate::parser::macroblock::verif_mb::walk", module_table_path, depth))
+
+
+# ---- callee side of the gather contract ----------------------------------------------------------------------------
+def gsize_name(rw, rh, nw, nh):
+    return "c01_gather_ref%dx%d_new%dx%d" % (rw, rh, nw, nh)
+
+
+def gsize(rw, rh, nw, nh):
+    return ('    #[cfg_attr(kani, kani::proof)]\n    #[cfg_attr(kani, kani::unwind(9))]\n'
+            '    #[cfg_attr(kani, kani::stub(f32::ceil, crate::decoder::cpu::gather::verif_gather::ceil32_model))]\n'
+            '    pub fn %s() { gather_sizes_check::<%d, %d, %d, %d>() }\n' % (gsize_name(rw, rh, nw, nh), rw, rh, nw, nh))
+
+
+def gsize_all():
+    return [(16, 16, 16, 16), (16, 16, 16, 8), (8, 8, 16, 16), (16, 32, 16, 16), (16, 16, 8, 8), (1, 1, 16, 16), (16, 16, 1, 1), (17, 9, 9, 17), (5, 3, 5, 3), (1, 1, 1, 1), (16, 8, 16, 16)]
